@@ -123,6 +123,10 @@ func runHist(c *caseT) string {
 				fmt.Fprintf(&b, "\tO%d=%s", k, obs)
 				continue
 			}
+			for i := 0; i < op.BurnHeld; i++ {
+				// literals of every kind, all distinct from one another and from anything a generated path holds
+				jsonpath.Parse(fmt.Sprintf("$[?(@.zz == %d || @.zz == 'held-%d' || @.zz =~ /h%d/)]", 7000000+i, i, i))
+			}
 			doc := buildDoc(op.Doc)
 			res, eobs := evalObs(f, doc)
 			fmt.Fprintf(&b, "\tO%d=%s|%s", k, eobs, rec.take())
